@@ -1,12 +1,1284 @@
-//! stub: property C12 has no correspondence harness yet
+//! C12 — body extractors never accept or buffer more than their configured limit.
+//!
+//! Real code, public API only: `Bytes`, `String`, `Json<T>`, `Form<T>` through
+//! `FromRequest::from_request` on an `actix_web::test::TestRequest` whose payload is replaced by a
+//! scripted `dev::Payload::Stream` (chunks / Pending / error exactly as the case line says, with
+//! counters for how far it was pulled); `web::Payload::to_bytes_limited`;
+//! `actix_http::body::to_bytes_limited` on a scripted `MessageBody` with a chosen `size()`;
+//! `MultipartForm<T>` for three derived form structs.  Case grammar: see `lean/ActixModel/Drv/C12.lean`.
+use std::{
+    cell::Cell,
+    collections::BTreeMap,
+    io::Write as _,
+    pin::Pin,
+    rc::Rc,
+    task::{Context, Poll},
+};
+
+use actix_http::{
+    body::{BodySize, MessageBody},
+    error::PayloadError,
+    header::ContentEncoding,
+};
+use actix_multipart::{
+    form::{bytes::Bytes as MpBytes, tempfile::TempFile, text::Text, MultipartForm, MultipartFormConfig},
+    MultipartError,
+};
+use actix_web::{
+    dev,
+    error::{JsonPayloadError, UrlencodedError},
+    test::TestRequest,
+    web, FromRequest,
+};
+use bytes::Bytes;
+use futures_core::Stream;
+
 use super::Prop;
-use crate::common::CaseResult;
+use crate::common::{block_on_system, kv, unhex, CaseResult, Ctx, Rng, Tier};
+
+const RULE: &str = "cases = (extractor ∈ {Bytes, String, Json<String>, Form<{a}>, web::Payload::to_bytes_limited, \
+body::to_bytes_limited on a scripted MessageBody, MultipartForm<A|B|C>, multipart Field::bytes}) × limit × declared length (absent / true / \
+lying small / lying large / unparsable) × content coding (identity, gzip, deflate, br, zstd) × plain body × a script \
+cutting the wire image into chunks (empty chunks, Pending, stream error). Streams: all compositions of bodies ≤ 5 \
+bytes for limits 0..4; lengths limit-1/limit/limit+1/4·limit for limits up to 64 KiB with whole / 1-byte / random \
+cuts; the default limits (256 KiB, 2 MiB, 16 KiB) ±1; decompression bombs; random. Multipart: random field lists over \
+names a,b,t,s,u with total / memory budgets around the sums. A case is non-trivial if the body stage ran (not refused \
+on content-type); distinct = distinct (case, output) hashes";
+
+const BOUNDARY: &str = "XcTwELvEbOuNdArYx";
+
+// ------------------------------------------------------------------------------------------
+// case pieces shared by generator and runner
+
+fn lcg_bytes(seed: u64, n: usize) -> Vec<u8> {
+    let mut s = seed;
+    (0..n)
+        .map(|_| {
+            s = (s * 1103515245 + 12345) % 2147483648;
+            ((s / 65536) % 256) as u8
+        })
+        .collect()
+}
+
+fn letters(n: usize) -> Vec<u8> {
+    (0..n).map(|i| 97 + (i % 26) as u8).collect()
+}
+
+fn body_of_spec(spec: &str) -> Vec<u8> {
+    let p: Vec<&str> = spec.split(':').collect();
+    match p.as_slice() {
+        ["x", h] => unhex(h).unwrap_or_default(),
+        ["r", b, n] => vec![b.parse::<u8>().unwrap_or(0); n.parse().unwrap_or(0)],
+        ["q", s, n] => lcg_bytes(s.parse().unwrap_or(0), n.parse().unwrap_or(0)),
+        ["j", n] => {
+            let n: usize = n.parse().unwrap_or(2);
+            let mut v = vec![b'"'];
+            v.extend(letters(n.saturating_sub(2)));
+            v.push(b'"');
+            v
+        }
+        ["f", n] => {
+            let n: usize = n.parse().unwrap_or(2);
+            let mut v = b"a=".to_vec();
+            v.extend(letters(n.saturating_sub(2)));
+            v
+        }
+        _ => vec![],
+    }
+}
+
+fn fnv(bs: &[u8]) -> u32 {
+    bs.iter().fold(2166136261u32, |h, b| (h ^ *b as u32).wrapping_mul(16777619))
+}
+
+fn compress(enc: &str, data: &[u8]) -> Vec<u8> {
+    match enc {
+        "gz" => {
+            let mut e = flate2::write::GzEncoder::new(Vec::new(), flate2::Compression::default());
+            e.write_all(data).unwrap();
+            e.finish().unwrap()
+        }
+        "df" => {
+            let mut e = flate2::write::ZlibEncoder::new(Vec::new(), flate2::Compression::default());
+            e.write_all(data).unwrap();
+            e.finish().unwrap()
+        }
+        "br" => {
+            let mut out = Vec::new();
+            {
+                let mut e = brotli::CompressorWriter::new(&mut out, 4096, 5, 22);
+                e.write_all(data).unwrap();
+                e.flush().unwrap();
+            }
+            out
+        }
+        "zs" => zstd::stream::encode_all(data, 3).unwrap(),
+        _ => data.to_vec(),
+    }
+}
+
+fn enc_header(enc: &str) -> Option<&'static str> {
+    match enc {
+        "gz" => Some("gzip"),
+        "df" => Some("deflate"),
+        "br" => Some("br"),
+        "zs" => Some("zstd"),
+        _ => None,
+    }
+}
+
+#[derive(Clone, Debug, PartialEq)]
+enum Tok {
+    Chunk(usize),
+    Pending,
+    Err,
+}
+
+fn parse_cuts(s: &str) -> Vec<Tok> {
+    s.split(',')
+        .filter(|t| !t.is_empty())
+        .map(|t| match t {
+            "p" => Tok::Pending,
+            "e" => Tok::Err,
+            n => Tok::Chunk(n.parse().unwrap_or(0)),
+        })
+        .collect()
+}
+
+#[derive(Clone, Debug)]
+enum Ev {
+    Chunk(Bytes),
+    Pending,
+    Err,
+}
+
+fn script(wire: &[u8], toks: &[Tok]) -> Vec<Ev> {
+    let mut pos = 0usize;
+    toks.iter()
+        .map(|t| match t {
+            Tok::Pending => Ev::Pending,
+            Tok::Err => Ev::Err,
+            Tok::Chunk(n) => {
+                let end = (pos + n).min(wire.len());
+                let c = Bytes::copy_from_slice(&wire[pos..end]);
+                pos = end;
+                Ev::Chunk(c)
+            }
+        })
+        .collect()
+}
+
+#[derive(Default)]
+struct Counters {
+    /// `Some(_)` items handed out
+    pulled: Cell<usize>,
+    /// bytes handed out
+    bytes: Cell<usize>,
+    /// size of the last chunk handed out
+    last: Cell<usize>,
+    /// `None` handed out
+    eof: Cell<bool>,
+    /// polled again after `None` or after an error
+    after_end: Cell<bool>,
+}
+
+/// the scripted request body: a `Stream` that does exactly what the case line says
+struct ScriptStream {
+    evs: std::collections::VecDeque<Ev>,
+    c: Rc<Counters>,
+    ended: bool,
+}
+
+impl ScriptStream {
+    fn new(evs: Vec<Ev>, c: Rc<Counters>) -> Self {
+        ScriptStream { evs: evs.into(), c, ended: false }
+    }
+}
+
+impl Stream for ScriptStream {
+    type Item = Result<Bytes, PayloadError>;
+    fn poll_next(mut self: Pin<&mut Self>, cx: &mut Context<'_>) -> Poll<Option<Self::Item>> {
+        if self.ended {
+            self.c.after_end.set(true);
+            return Poll::Ready(None);
+        }
+        match self.evs.pop_front() {
+            None => {
+                self.ended = true;
+                self.c.eof.set(true);
+                Poll::Ready(None)
+            }
+            Some(Ev::Pending) => {
+                cx.waker().wake_by_ref();
+                Poll::Pending
+            }
+            Some(Ev::Err) => {
+                self.c.pulled.set(self.c.pulled.get() + 1);
+                self.c.last.set(0);
+                Poll::Ready(Some(Err(PayloadError::Incomplete(None))))
+            }
+            Some(Ev::Chunk(b)) => {
+                self.c.pulled.set(self.c.pulled.get() + 1);
+                self.c.bytes.set(self.c.bytes.get() + b.len());
+                self.c.last.set(b.len());
+                Poll::Ready(Some(Ok(b)))
+            }
+        }
+    }
+}
+
+/// a `MessageBody` with a chosen `size()` over the scripted stream
+struct ScriptBody {
+    size: BodySize,
+    s: ScriptStream,
+}
+
+impl MessageBody for ScriptBody {
+    type Error = PayloadError;
+    fn size(&self) -> BodySize {
+        self.size
+    }
+    fn poll_next(mut self: Pin<&mut Self>, cx: &mut Context<'_>) -> Poll<Option<Result<Bytes, PayloadError>>> {
+        Pin::new(&mut self.s).poll_next(cx)
+    }
+}
+
+fn payload_of(evs: Vec<Ev>, c: Rc<Counters>) -> dev::Payload {
+    let s: Pin<Box<dyn Stream<Item = Result<Bytes, PayloadError>>>> = Box::pin(ScriptStream::new(evs, c));
+    dev::Payload::Stream { payload: s }
+}
+
+#[derive(serde::Deserialize)]
+struct FormT {
+    a: String,
+}
+
+// ------------------------------------------------------------------------------------------
+// stream extractors
+
+/// canonical result of one run of the real extractor
+#[derive(Clone, Debug, PartialEq)]
+struct Obs {
+    /// `ok:<len>:<fnv>` | overflow | overflow-known:<n> | unknown-length | stream-err | exceeded | parse-err | utf8-err | other:…
+    res: String,
+    st: String,
+    /// form's `Overflow { size }` when raised by the loop
+    osz: String,
+    data: Option<Vec<u8>>,
+}
+
+fn payload_err(e: &PayloadError) -> String {
+    match e {
+        PayloadError::Overflow => "overflow".into(),
+        PayloadError::UnknownLength => "unknown-length".into(),
+        PayloadError::Incomplete(_) => "stream-err".into(),
+        other => format!("other:payload:{:?}", other).replace(' ', "_"),
+    }
+}
+
+fn ok_tok(b: &[u8]) -> String {
+    format!("ok:{}:{}", b.len(), fnv(b))
+}
+
+struct StreamCase<'a> {
+    ex: &'a str,
+    lim: Option<usize>,
+    cl: &'a str,
+    enc: &'a str,
+}
+
+async fn run_extractor(c: &StreamCase<'_>, evs: Vec<Ev>, cnt: Rc<Counters>) -> Obs {
+    let mut osz = "-".to_owned();
+    if c.ex == "tbs" {
+        let size = match c.cl {
+            "none" => BodySize::Stream,
+            "bad" => BodySize::None,
+            n => BodySize::Sized(n.parse().unwrap_or(0)),
+        };
+        let body = ScriptBody { size, s: ScriptStream::new(evs, cnt) };
+        return match actix_http::body::to_bytes_limited(body, c.lim.unwrap_or(0)).await {
+            Ok(Ok(b)) => Obs { res: ok_tok(&b), st: "-".into(), osz, data: Some(b.to_vec()) },
+            Ok(Err(e)) => Obs { res: payload_err(&e), st: "-".into(), osz, data: None },
+            Err(_) => Obs { res: "exceeded".into(), st: "-".into(), osz, data: None },
+        };
+    }
+    let mut req = TestRequest::post();
+    match c.ex {
+        "json" | "jb" => req = req.insert_header(("content-type", "application/json")),
+        "form" | "ue" => req = req.insert_header(("content-type", "application/x-www-form-urlencoded")),
+        _ => {}
+    }
+    match c.cl {
+        "none" => {}
+        "bad" => req = req.insert_header(("content-length", "12x")),
+        n => req = req.insert_header(("content-length", n.to_owned())),
+    }
+    if let Some(h) = enc_header(c.enc) {
+        req = req.insert_header(("content-encoding", h));
+    }
+    if let Some(l) = c.lim {
+        req = match c.ex {
+            "bytes" | "string" => req.app_data(web::PayloadConfig::new(l)),
+            "json" => req.app_data(web::JsonConfig::default().limit(l)),
+            "form" => req.app_data(web::FormConfig::default().limit(l)),
+            _ => req,
+        };
+    }
+    let (req, _) = req.to_http_parts();
+    let mut pl = payload_of(evs, cnt);
+    let status = |e: &actix_web::Error| e.as_response_error().status_code().as_u16().to_string();
+    match c.ex {
+        "bytes" => match Bytes::from_request(&req, &mut pl).await {
+            Ok(b) => Obs { res: ok_tok(&b), st: "-".into(), osz, data: Some(b.to_vec()) },
+            Err(e) => {
+                let res = e.as_error::<PayloadError>().map(payload_err).unwrap_or_else(|| format!("other:{:?}", e).replace(' ', "_"));
+                Obs { res, st: status(&e), osz, data: None }
+            }
+        },
+        "string" => match String::from_request(&req, &mut pl).await {
+            Ok(s) => Obs { res: ok_tok(s.as_bytes()), st: "-".into(), osz, data: Some(s.into_bytes()) },
+            Err(e) => {
+                let res = match e.as_error::<PayloadError>() {
+                    Some(p) => payload_err(p),
+                    None if format!("{}", e) == "Can not decode body" => "utf8-err".into(),
+                    None => format!("other:{:?}", e).replace(' ', "_"),
+                };
+                Obs { res, st: status(&e), osz, data: None }
+            }
+        },
+        "json" => match web::Json::<String>::from_request(&req, &mut pl).await {
+            Ok(s) => Obs { res: ok_tok(s.as_bytes()), st: "-".into(), osz, data: Some(s.0.into_bytes()) },
+            Err(e) => {
+                let res = match e.as_error::<JsonPayloadError>() {
+                    Some(JsonPayloadError::Overflow { .. }) => "overflow".into(),
+                    Some(JsonPayloadError::OverflowKnownLength { length, .. }) => format!("overflow-known:{}", length),
+                    Some(JsonPayloadError::Deserialize(_)) => "parse-err".into(),
+                    Some(JsonPayloadError::Payload(p)) => payload_err(p),
+                    Some(o) => format!("other:{:?}", o).replace(' ', "_"),
+                    None => format!("other:{:?}", e).replace(' ', "_"),
+                };
+                Obs { res, st: status(&e), osz, data: None }
+            }
+        },
+        "form" => match web::Form::<FormT>::from_request(&req, &mut pl).await {
+            Ok(f) => Obs { res: ok_tok(f.a.as_bytes()), st: "-".into(), osz, data: Some(f.0.a.into_bytes()) },
+            Err(e) => {
+                let res = match e.as_error::<UrlencodedError>() {
+                    Some(UrlencodedError::Overflow { size, limit }) => {
+                        let declared: Option<usize> = c.cl.parse().ok();
+                        if declared == Some(*size) && *size > *limit {
+                            format!("overflow-known:{}", size)
+                        } else {
+                            osz = size.to_string();
+                            "overflow".into()
+                        }
+                    }
+                    Some(UrlencodedError::UnknownLength) => "unknown-length".into(),
+                    Some(UrlencodedError::Parse(_)) => "parse-err".into(),
+                    Some(UrlencodedError::Payload(p)) => payload_err(p),
+                    Some(o) => format!("other:{:?}", o).replace(' ', "_"),
+                    None => format!("other:{:?}", e).replace(' ', "_"),
+                };
+                Obs { res, st: status(&e), osz, data: None }
+            }
+        },
+        "jb" => {
+            let mut fut = web::JsonBody::<String>::new(&req, &mut pl, None, true);
+            if let Some(l) = c.lim {
+                fut = fut.limit(l);
+            }
+            match fut.await {
+                Ok(s) => Obs { res: ok_tok(s.as_bytes()), st: "-".into(), osz, data: Some(s.into_bytes()) },
+                Err(e) => {
+                    use actix_web::ResponseError as _;
+                    let res = match &e {
+                        JsonPayloadError::Overflow { .. } => "overflow".into(),
+                        JsonPayloadError::OverflowKnownLength { length, .. } => format!("overflow-known:{}", length),
+                        JsonPayloadError::Deserialize(_) => "parse-err".into(),
+                        JsonPayloadError::Payload(p) => payload_err(p),
+                        o => format!("other:{:?}", o).replace(' ', "_"),
+                    };
+                    Obs { res, st: e.status_code().as_u16().to_string(), osz, data: None }
+                }
+            }
+        }
+        "ue" => {
+            let mut fut = web::UrlEncoded::<FormT>::new(&req, &mut pl);
+            if let Some(l) = c.lim {
+                fut = fut.limit(l);
+            }
+            match fut.await {
+                Ok(f) => Obs { res: ok_tok(f.a.as_bytes()), st: "-".into(), osz, data: Some(f.a.into_bytes()) },
+                Err(e) => {
+                    use actix_web::ResponseError as _;
+                    let res = match &e {
+                        UrlencodedError::Overflow { size, limit } => {
+                            let declared: Option<usize> = c.cl.parse().ok();
+                            if declared == Some(*size) && *size > *limit {
+                                format!("overflow-known:{}", size)
+                            } else {
+                                osz = size.to_string();
+                                "overflow".into()
+                            }
+                        }
+                        UrlencodedError::UnknownLength => "unknown-length".into(),
+                        UrlencodedError::Parse(_) => "parse-err".into(),
+                        UrlencodedError::Payload(p) => payload_err(p),
+                        o => format!("other:{:?}", o).replace(' ', "_"),
+                    };
+                    Obs { res, st: e.status_code().as_u16().to_string(), osz, data: None }
+                }
+            }
+        }
+        "tbl" => {
+            let p = web::Payload::from_request(&req, &mut pl).await.unwrap();
+            match p.to_bytes_limited(c.lim.unwrap_or(0)).await {
+                Ok(Ok(b)) => Obs { res: ok_tok(&b), st: "-".into(), osz, data: Some(b.to_vec()) },
+                Ok(Err(e)) => {
+                    let res = e.as_error::<PayloadError>().map(payload_err).unwrap_or_else(|| format!("other:{:?}", e).replace(' ', "_"));
+                    Obs { res, st: "-".into(), osz, data: None }
+                }
+                Err(_) => Obs { res: "exceeded".into(), st: "-".into(), osz, data: None },
+            }
+        }
+        _ => Obs { res: "bad-extractor".into(), st: "-".into(), osz, data: None },
+    }
+}
+
+/// what the request decoder hands on, measured on the side with the same wire script:
+/// (items pulled from the wire when the output appeared, output length); last entry = eof
+async fn decode_profile(enc: &str, evs: Vec<Ev>) -> (Vec<(usize, usize)>, bool) {
+    use futures_util::StreamExt as _;
+    let cnt = Rc::new(Counters::default());
+    let ce = match enc {
+        "gz" => ContentEncoding::Gzip,
+        "df" => ContentEncoding::Deflate,
+        "br" => ContentEncoding::Brotli,
+        "zs" => ContentEncoding::Zstd,
+        _ => ContentEncoding::Identity,
+    };
+    let mut d = dev::Decompress::new(ScriptStream::new(evs, cnt.clone()), ce);
+    let mut out = Vec::new();
+    let mut failed = false;
+    while let Some(item) = d.next().await {
+        match item {
+            Ok(b) => out.push((cnt.pulled.get(), b.len())),
+            Err(_) => {
+                failed = true;
+                break;
+            }
+        }
+    }
+    (out, failed)
+}
+
+fn overflow_class(res: &str) -> bool {
+    res == "overflow" || res.starts_with("overflow-known:") || res == "exceeded"
+}
+
+fn run_stream(case: &str, ex: &str) -> CaseResult {
+    let lim: Option<usize> = match kv(case, "lim") {
+        Some("dflt") | None => None,
+        Some(v) => v.parse().ok(),
+    };
+    let cl = kv(case, "cl").unwrap_or("none");
+    let enc = if ex == "tbl" || ex == "tbs" { "id" } else { kv(case, "enc").unwrap_or("id") };
+    let plain = body_of_spec(kv(case, "body").unwrap_or("x:-"));
+    let wire = compress(enc, &plain);
+    let toks = parse_cuts(kv(case, "cuts").unwrap_or(""));
+    let declared_wire: usize = kv(case, "wire").and_then(|v| v.parse().ok()).unwrap_or(usize::MAX);
+    if declared_wire != wire.len() {
+        return CaseResult::ok(format!("bad-case:wire={}", wire.len())).fail("bad-case", "wire length differs from the generator's".into());
+    }
+    let evs = script(&wire, &toks);
+    let sc = StreamCase { ex, lim, cl, enc };
+    let eff_limit = lim.unwrap_or(match ex {
+        "json" | "jb" => 2_097_152,
+        "form" => 16_384,
+        "ue" => 32_768,
+        _ => 262_144,
+    });
+
+    let (obs, cnt, reference, profile) = block_on_system(async {
+        let cnt = Rc::new(Counters::default());
+        let obs = run_extractor(&sc, evs.clone(), cnt.clone()).await;
+        // metamorphic reference: the same wire bytes (up to the first error) as ONE chunk
+        let mut ref_evs = Vec::new();
+        let mut acc: Vec<u8> = Vec::new();
+        let mut err = false;
+        for e in &evs {
+            match e {
+                Ev::Chunk(b) => acc.extend_from_slice(b),
+                Ev::Err => {
+                    err = true;
+                    break;
+                }
+                Ev::Pending => {}
+            }
+        }
+        ref_evs.push(Ev::Chunk(Bytes::from(acc)));
+        if err {
+            ref_evs.push(Ev::Err);
+        }
+        let reference = run_extractor(&sc, ref_evs, Rc::new(Counters::default())).await;
+        let profile = if enc != "id" { Some(decode_profile(enc, evs.clone()).await) } else { None };
+        (obs, cnt, reference, profile)
+    });
+
+    let ident = enc == "id";
+    let (pl, eof) = if ident {
+        (cnt.pulled.get().to_string(), (cnt.eof.get() as u8).to_string())
+    } else {
+        ("-".to_owned(), "-".to_owned())
+    };
+    let osz = if ident { obs.osz.clone() } else { "-".to_owned() };
+    let output = format!("{} st={} pulled={} eof={} osz={}", obs.res, obs.st, pl, eof, osz);
+    let mut r = CaseResult::ok(output);
+    r.nontrivial = !obs.res.starts_with("other:");
+
+    // ---------------- oracle: the property's own words, on the implementation's output ----------
+    let has_err = toks.contains(&Tok::Err);
+    let sent: usize = toks.iter().map(|t| if let Tok::Chunk(n) = t { *n } else { 0 }).sum();
+    let complete = !has_err && sent >= wire.len();
+    // (1) success only within the limit, and with exactly the body that was sent
+    if let Some(d) = &obs.data {
+        let expect: &[u8] = match ex {
+            "json" | "jb" => if plain.len() >= 2 { &plain[1..plain.len() - 1] } else { &plain },
+            "form" | "ue" => if plain.len() >= 2 { &plain[2..] } else { &plain },
+            _ => &plain,
+        };
+        let tbs_shortcut = ex == "tbs" && (cl == "bad" || cl == "0");
+        if plain.len() > eff_limit && !tbs_shortcut {
+            r = r.fail("accepted-over-limit", format!("body of {} bytes accepted with limit {}", plain.len(), eff_limit));
+        } else if d.len() > eff_limit {
+            r = r.fail("accepted-over-limit", format!("returned {} bytes with limit {}", d.len(), eff_limit));
+        } else if !tbs_shortcut && (d.as_slice() != expect || !complete) {
+            r = r.fail("wrong-body", format!("returned {} bytes, sent {} (complete={})", d.len(), expect.len(), complete));
+        }
+    }
+    // (2) a complete body over the limit fails, and with the overflow error
+    let cl_unparsable_refuses = cl == "bad" && matches!(ex, "bytes" | "string" | "form" | "ue");
+    if complete && plain.len() > eff_limit && !cl_unparsable_refuses && !(ex == "tbs" && (cl == "bad" || cl == "0")) {
+        if !overflow_class(&obs.res) {
+            r = r.fail("over-limit-not-overflow", format!("{} bytes, limit {}: {}", plain.len(), eff_limit, obs.res));
+        } else if obs.st != "413" && obs.st != "-" {
+            r = r.fail("overflow-status", format!("overflow reported with status {}", obs.st));
+        }
+    }
+    // (3) a complete body within the limit, with no declared length (or one within the limit), succeeds
+    //     (or fails only in post-processing)
+    let declared: Option<usize> = cl.parse().ok();
+    let decl_ok = cl == "none" || declared.map_or(false, |d| d <= eff_limit) || ex == "tbl" || ((ex == "json" || ex == "jb") && cl == "bad") || (ex == "jb" && lim.is_none());
+    if complete && plain.len() <= eff_limit && decl_ok && !(ex == "tbs" && cl == "0") && overflow_class(&obs.res) {
+        r = r.fail("within-limit-overflow", format!("{} bytes, limit {}: {}", plain.len(), eff_limit, obs.res));
+    }
+    // (4) outcome does not depend on chunking
+    if obs.res != reference.res || obs.st != reference.st {
+        r = r.fail("chunking-dependent", format!("scripted chunking: {} / one chunk: {}", obs.res, reference.res));
+    }
+    // (5) never hold more than limit + one incoming chunk: everything pulled before the last
+    //     chunk must have fitted; refused-on-header means nothing pulled; no poll after the end
+    let pulled_bytes = cnt.bytes.get();
+    let before_last = pulled_bytes - cnt.last.get();
+    if ident {
+        if before_last > eff_limit {
+            r = r.fail("pulled-beyond-limit", format!("{} bytes already taken when the next chunk was pulled, limit {}", before_last, eff_limit));
+        }
+    } else if let Some((prof, failed)) = &profile {
+        // expected stop: the first decoded output that pushes the decoded total over the limit
+        let mut cum = 0usize;
+        let mut expect_pulled = None;
+        let mut max_out = 0usize;
+        for (p, n) in prof {
+            max_out = max_out.max(*n);
+            cum += n;
+            if cum > eff_limit && expect_pulled.is_none() {
+                expect_pulled = Some(*p);
+            }
+        }
+        if let Some(p) = expect_pulled {
+            if cnt.pulled.get() > p {
+                r = r.fail("pulled-beyond-limit", format!("{} wire items pulled, decoded total exceeded the limit after {}", cnt.pulled.get(), p));
+            }
+        }
+        let max_wire = toks.iter().map(|t| if let Tok::Chunk(n) = t { *n } else { 0 }).max().unwrap_or(0);
+        if max_out > eff_limit + max_wire {
+            r = r.tag("O6:decoded-chunk>limit+wire-chunk");
+        }
+        if *failed {
+            r = r.tag("decoder-error");
+        }
+    }
+    let early = obs.res.starts_with("overflow-known:") || obs.res == "unknown-length";
+    if early && cnt.pulled.get() != 0 {
+        r = r.fail("pulled-after-header-refusal", format!("{} items pulled", cnt.pulled.get()));
+    }
+    if let Some(d) = declared {
+        // (`JsonBody::new` without `.limit()` documents that it does not look at the declared length)
+        if d > eff_limit && (matches!(ex, "bytes" | "string" | "json" | "form" | "ue") || (ex == "jb" && lim.is_some())) && (cnt.pulled.get() != 0 || !overflow_class(&obs.res)) {
+            r = r.fail("declared-over-limit-read", format!("declared {} > limit {}: {} after pulling {}", d, eff_limit, obs.res, cnt.pulled.get()));
+        }
+    }
+    if cnt.after_end.get() {
+        r = r.fail("polled-after-end", "stream polled again after None".into());
+    }
+    if complete && plain.len() <= eff_limit && declared.map_or(false, |d| d > eff_limit) && overflow_class(&obs.res) {
+        r = r.tag("refused-on-declared-length-though-body-fits");
+    }
+    r = r.tag(&format!("ex:{}", ex)).tag(&format!("enc:{}", enc));
+    let kind = obs.res.split(':').next().unwrap_or("?").to_owned();
+    r = r.tag(&format!("res:{}", kind));
+    r = r.tag(&format!("cl:{}", match cl { "none" => "absent", "bad" => "unparsable", _ => if declared == Some(wire.len()) { "true" } else { "lying" } }));
+    if has_err {
+        r = r.tag("stream-error-injected");
+    }
+    if toks.contains(&Tok::Pending) {
+        r = r.tag("pending-injected");
+    }
+    r
+}
+
+// ------------------------------------------------------------------------------------------
+// multipart forms (field limits are compile-time attributes of the derive)
+
+#[derive(MultipartForm)]
+struct FormA {
+    #[multipart(limit = "16B")]
+    a: Vec<MpBytes>,
+    b: Option<MpBytes>,
+    #[multipart(limit = "24B")]
+    t: Vec<TempFile>,
+    #[multipart(limit = "8B")]
+    s: Option<Text<String>>,
+}
+
+#[derive(MultipartForm)]
+#[multipart(duplicate_field = "deny")]
+struct FormB {
+    #[multipart(limit = "16B")]
+    a: Vec<MpBytes>,
+    b: Option<MpBytes>,
+}
+
+#[derive(MultipartForm)]
+#[multipart(duplicate_field = "replace")]
+struct FormC {
+    a: Vec<MpBytes>,
+    #[multipart(limit = "16B")]
+    b: Option<MpBytes>,
+}
+
+fn mp_limit_of(form: &str, name: &str) -> Option<usize> {
+    match (form, name) {
+        ("A", "a") => Some(16),
+        ("A", "t") => Some(24),
+        ("A", "s") => Some(8),
+        ("B", "a") => Some(16),
+        ("C", "b") => Some(16),
+        _ => None,
+    }
+}
+
+fn mp_fields(s: &str) -> Vec<(String, usize)> {
+    s.split(';')
+        .filter(|x| !x.is_empty())
+        .filter_map(|x| {
+            let (n, l) = x.split_once(':')?;
+            Some((n.to_owned(), l.parse().ok()?))
+        })
+        .collect()
+}
+
+fn mp_body(fields: &[(String, usize)]) -> Vec<u8> {
+    let data: Vec<(String, Vec<u8>)> = fields.iter().map(|(n, l)| (n.clone(), letters(*l))).collect();
+    mp_body_data(&data)
+}
+
+fn mp_body_data(fields: &[(String, Vec<u8>)]) -> Vec<u8> {
+    let mut v = Vec::new();
+    for (i, (name, data)) in fields.iter().enumerate() {
+        v.extend_from_slice(format!("--{}\r\n", BOUNDARY).as_bytes());
+        if name == "t" {
+            v.extend_from_slice(format!("Content-Disposition: form-data; name=\"{}\"; filename=\"f{}.txt\"\r\n\r\n", name, i).as_bytes());
+        } else {
+            v.extend_from_slice(format!("Content-Disposition: form-data; name=\"{}\"\r\n\r\n", name).as_bytes());
+        }
+        v.extend_from_slice(data);
+        v.extend_from_slice(b"\r\n");
+    }
+    v.extend_from_slice(format!("--{}--\r\n", BOUNDARY).as_bytes());
+    v
+}
+
+/// retained payload sizes by struct field, for the oracle
+type Kept = BTreeMap<&'static str, Vec<usize>>;
+
+fn mp_classify(e: &actix_web::Error) -> (String, String) {
+    let st = e.as_response_error().status_code().as_u16().to_string();
+    let res = match e.as_error::<MultipartError>() {
+        Some(MultipartError::Payload(PayloadError::Overflow)) => "overflow".to_owned(),
+        Some(MultipartError::DuplicateField(_)) => "duplicate".to_owned(),
+        Some(o) => format!("other:{:?}", o).replace(' ', "_"),
+        None => format!("other:{:?}", e).replace(' ', "_"),
+    };
+    (res, st)
+}
+
+async fn run_mp_form(form: &str, total: Option<usize>, mem: Option<usize>, evs: Vec<Ev>, cnt: Rc<Counters>) -> (String, String, Option<Kept>) {
+    let mut cfg = MultipartFormConfig::default();
+    if let Some(t) = total {
+        cfg = cfg.total_limit(t);
+    }
+    if let Some(m) = mem {
+        cfg = cfg.memory_limit(m);
+    }
+    let (req, _) = TestRequest::post()
+        .insert_header(("content-type", format!("multipart/form-data; boundary={}", BOUNDARY)))
+        .app_data(cfg)
+        .to_http_parts();
+    let mut pl = payload_of(evs, cnt);
+    let mut kept = Kept::new();
+    match form {
+        "A" => match MultipartForm::<FormA>::from_request(&req, &mut pl).await {
+            Ok(f) => {
+                kept.insert("a", f.a.iter().map(|x| x.data.len()).collect());
+                kept.insert("b", f.b.iter().map(|x| x.data.len()).collect());
+                kept.insert("t", f.t.iter().map(|x| x.size).collect());
+                kept.insert("s", f.s.iter().map(|x| x.0.len()).collect());
+                ("ok".into(), "-".into(), Some(kept))
+            }
+            Err(e) => {
+                let (r, s) = mp_classify(&e);
+                (r, s, None)
+            }
+        },
+        "B" => match MultipartForm::<FormB>::from_request(&req, &mut pl).await {
+            Ok(f) => {
+                kept.insert("a", f.a.iter().map(|x| x.data.len()).collect());
+                kept.insert("b", f.b.iter().map(|x| x.data.len()).collect());
+                ("ok".into(), "-".into(), Some(kept))
+            }
+            Err(e) => {
+                let (r, s) = mp_classify(&e);
+                (r, s, None)
+            }
+        },
+        _ => match MultipartForm::<FormC>::from_request(&req, &mut pl).await {
+            Ok(f) => {
+                kept.insert("a", f.a.iter().map(|x| x.data.len()).collect());
+                kept.insert("b", f.b.iter().map(|x| x.data.len()).collect());
+                ("ok".into(), "-".into(), Some(kept))
+            }
+            Err(e) => {
+                let (r, s) = mp_classify(&e);
+                (r, s, None)
+            }
+        },
+    }
+}
+
+/// reference semantics written with running sums (not with remaining counters): which fields
+/// are charged to which budget, the first field at which a sum exceeds its budget, the first
+/// denied duplicate
+fn mp_reference(form: &str, total: usize, mem: usize, fields: &[(String, usize)]) -> (String, Kept) {
+    let mut sum_total = 0usize;
+    let mut sum_mem = 0usize;
+    let mut by_name: BTreeMap<String, usize> = BTreeMap::new();
+    let mut seen: Vec<String> = Vec::new();
+    let mut kept = Kept::new();
+    for k in ["a", "b", "t", "s"] {
+        if !(form != "A" && (k == "t" || k == "s")) {
+            kept.insert(k, vec![]);
+        }
+    }
+    for (name, len) in fields {
+        let known = matches!((form, name.as_str()), ("A", "a" | "b" | "t" | "s") | ("B" | "C", "a" | "b"));
+        let is_vec = name == "a" || name == "t";
+        let dup = !is_vec && seen.contains(name);
+        if known && dup && form == "B" {
+            return ("duplicate".into(), kept);
+        }
+        let read = known && !(dup && form == "A");
+        let in_mem = read && name != "t";
+        sum_total += len;
+        if in_mem {
+            sum_mem += len;
+        }
+        let n = by_name.entry(name.clone()).or_insert(0);
+        *n += len;
+        let over_name = mp_limit_of(form, name).map_or(false, |l| *n > l);
+        if sum_total > total || sum_mem > mem || over_name {
+            return ("overflow".into(), kept);
+        }
+        if read {
+            let key: &'static str = match name.as_str() {
+                "a" => "a",
+                "b" => "b",
+                "t" => "t",
+                _ => "s",
+            };
+            let e = kept.entry(key).or_default();
+            if is_vec {
+                e.push(*len);
+            } else {
+                *e = vec![*len];
+            }
+            if !seen.contains(name) {
+                seen.push(name.clone());
+            }
+        }
+    }
+    ("ok".into(), kept)
+}
+
+fn run_mp(case: &str) -> CaseResult {
+    let form = kv(case, "form").unwrap_or("A");
+    let total: Option<usize> = kv(case, "total").and_then(|v| v.parse().ok());
+    let mem: Option<usize> = kv(case, "mem").and_then(|v| v.parse().ok());
+    let fields = mp_fields(kv(case, "fields").unwrap_or(""));
+    let wire = mp_body(&fields);
+    let mut toks = parse_cuts(kv(case, "cuts").unwrap_or(""));
+    let sent: usize = toks.iter().map(|t| if let Tok::Chunk(n) = t { *n } else { 0 }).sum();
+    if sent < wire.len() {
+        toks.push(Tok::Chunk(wire.len() - sent));
+    }
+    let evs = script(&wire, &toks);
+    let ((res, st, kept), (res1, _, _)) = block_on_system(async {
+        let a = run_mp_form(form, total, mem, evs.clone(), Rc::new(Counters::default())).await;
+        let one = vec![Ev::Chunk(Bytes::copy_from_slice(&wire))];
+        let b = run_mp_form(form, total, mem, one, Rc::new(Counters::default())).await;
+        (a, b)
+    });
+    let mut r = CaseResult::ok(format!("{} st={}", res, st));
+    r.nontrivial = !res.starts_with("other:");
+    let (want, want_kept) = mp_reference(form, total.unwrap_or(52_428_800), mem.unwrap_or(2_097_152), &fields);
+    if res == "ok" && want != "ok" {
+        r = r.fail("mp-accepted-over-budget", format!("form accepted, reference says {}", want));
+    } else if res != want {
+        r = r.fail("mp-outcome", format!("got {}, reference says {}", res, want));
+    } else if let Some(k) = kept {
+        if k != want_kept {
+            r = r.fail("mp-kept", format!("retained {:?}, reference {:?}", k, want_kept));
+        }
+    }
+    if res != res1 {
+        r = r.fail("chunking-dependent", format!("scripted chunking: {} / one chunk: {}", res, res1));
+    }
+    r.tag("ex:mp").tag(&format!("form:{}", form)).tag(&format!("res:{}", res.split(':').next().unwrap_or("?")))
+}
+
+// ------------------------------------------------------------------------------------------
+// Field::bytes(limit) on the first of two fields of a raw `Multipart` stream
+
+fn fb_wire(plain: &[u8]) -> Vec<u8> {
+    mp_body_data(&[("a".to_owned(), plain.to_vec()), ("z".to_owned(), b"xyz".to_vec())])
+}
+
+async fn run_fb_once(limit: usize, evs: Vec<Ev>) -> (String, Option<Vec<u8>>, u8) {
+    use futures_util::StreamExt as _;
+    let mut headers = actix_http::header::HeaderMap::new();
+    headers.insert(
+        actix_http::header::CONTENT_TYPE,
+        actix_http::header::HeaderValue::from_str(&format!("multipart/form-data; boundary={}", BOUNDARY)).unwrap(),
+    );
+    let cnt = Rc::new(Counters::default());
+    let mut mp = actix_multipart::Multipart::new(&headers, ScriptStream::new(evs, cnt));
+    let mut field = match mp.next().await {
+        Some(Ok(f)) => f,
+        Some(Err(_)) => return ("stream-err".into(), None, 0),
+        None => return ("other:no-field".into(), None, 0),
+    };
+    let (res, data) = match field.bytes(limit).await {
+        Ok(Ok(b)) => (ok_tok(&b), Some(b.to_vec())),
+        Ok(Err(_)) => return ("stream-err".into(), None, 0),
+        Err(_) => ("limit-exceeded".to_owned(), None),
+    };
+    drop(field);
+    // the rest of the request must still be readable
+    let next = match mp.next().await {
+        Some(Ok(mut f2)) => match f2.bytes(16).await {
+            Ok(Ok(b)) if &b[..] == b"xyz" => 1,
+            _ => 0,
+        },
+        _ => 0,
+    };
+    (res, data, next)
+}
+
+fn run_fb(case: &str) -> CaseResult {
+    let limit: usize = kv(case, "lim").and_then(|v| v.parse().ok()).unwrap_or(0);
+    let plain = body_of_spec(kv(case, "body").unwrap_or("x:-"));
+    let wire = fb_wire(&plain);
+    let mut toks = parse_cuts(kv(case, "cuts").unwrap_or(""));
+    let has_err = toks.contains(&Tok::Err);
+    let sent: usize = toks.iter().map(|t| if let Tok::Chunk(n) = t { *n } else { 0 }).sum();
+    if sent < wire.len() && !has_err {
+        toks.push(Tok::Chunk(wire.len() - sent));
+    }
+    let evs = script(&wire, &toks);
+    let ((res, data, next), (res1, _, _)) = block_on_system(async {
+        let a = run_fb_once(limit, evs.clone()).await;
+        let mut one = vec![Ev::Chunk(Bytes::copy_from_slice(&wire))];
+        if has_err {
+            // same bytes before the error, as one chunk
+            let mut acc = Vec::new();
+            for e in &evs {
+                match e {
+                    Ev::Chunk(b) => acc.extend_from_slice(b),
+                    Ev::Err => break,
+                    Ev::Pending => {}
+                }
+            }
+            one = vec![Ev::Chunk(Bytes::from(acc)), Ev::Err];
+        }
+        let b = run_fb_once(limit, one).await;
+        (a, b)
+    });
+    let mut r = CaseResult::ok(format!("{} next={}", res, next));
+    r.nontrivial = !res.starts_with("other:");
+    if let Some(d) = &data {
+        if d.len() > limit || plain.len() > limit {
+            r = r.fail("accepted-over-limit", format!("field of {} bytes returned with limit {}", plain.len(), limit));
+        } else if d != &plain {
+            r = r.fail("wrong-body", format!("returned {} bytes, field has {}", d.len(), plain.len()));
+        }
+    }
+    if !has_err {
+        if plain.len() > limit && res != "limit-exceeded" {
+            r = r.fail("over-limit-not-overflow", format!("{} bytes, limit {}: {}", plain.len(), limit, res));
+        }
+        if plain.len() <= limit && data.is_none() {
+            r = r.fail("within-limit-overflow", format!("{} bytes, limit {}: {}", plain.len(), limit, res));
+        }
+        if next != 1 {
+            r = r.fail("fb-next-field-lost", format!("after {} the following field could not be read", res));
+        }
+    }
+    if res != res1 {
+        r = r.fail("chunking-dependent", format!("scripted chunking: {} / one chunk: {}", res, res1));
+    }
+    let mut r = r.tag("ex:fb").tag(&format!("res:{}", res.split(':').next().unwrap_or("?")));
+    if has_err {
+        r = r.tag("stream-error-injected");
+    }
+    r
+}
+
+fn run(case: &str) -> CaseResult {
+    match kv(case, "ex") {
+        Some("mp") => run_mp(case),
+        Some("fb") => run_fb(case),
+        Some(ex) => run_stream(case, ex),
+        None => CaseResult::ok("bad-case".into()),
+    }
+}
+
+// ------------------------------------------------------------------------------------------
+// generator
+
+fn hexs(b: &[u8]) -> String {
+    if b.is_empty() {
+        "-".into()
+    } else {
+        b.iter().map(|x| format!("{:02x}", x)).collect()
+    }
+}
+
+fn cuts_str(toks: &[Tok]) -> String {
+    toks.iter()
+        .map(|t| match t {
+            Tok::Chunk(n) => n.to_string(),
+            Tok::Pending => "p".into(),
+            Tok::Err => "e".into(),
+        })
+        .collect::<Vec<_>>()
+        .join(",")
+}
+
+fn stream_case(ex: &str, lim: &str, cl: &str, enc: &str, body: &str, toks: &[Tok]) -> String {
+    let plain = body_of_spec(body);
+    let wire = if ex == "tbl" || ex == "tbs" { plain.len() } else { compress(enc, &plain).len() };
+    format!("ex={} lim={} cl={} enc={} body={} wire={} cuts={}", ex, lim, cl, enc, body, wire, cuts_str(toks))
+}
+
+/// all compositions of n (ordered sums of positive parts)
+fn compositions(n: usize) -> Vec<Vec<usize>> {
+    if n == 0 {
+        return vec![vec![]];
+    }
+    let mut out = Vec::new();
+    for mask in 0..(1u32 << (n - 1)) {
+        let mut parts = Vec::new();
+        let mut cur = 1;
+        for i in 0..n - 1 {
+            if mask & (1 << i) != 0 {
+                parts.push(cur);
+                cur = 1;
+            } else {
+                cur += 1;
+            }
+        }
+        parts.push(cur);
+        out.push(parts);
+    }
+    out
+}
+
+fn random_cuts(rng: &mut Rng, len: usize, max_parts: usize, noise: bool) -> Vec<Tok> {
+    let mut toks = Vec::new();
+    let mut rest = len;
+    let parts = rng.range(1, max_parts.max(1));
+    for i in 0..parts {
+        if noise && rng.chance(1, 6) {
+            toks.push(Tok::Pending);
+        }
+        if noise && rng.chance(1, 10) {
+            toks.push(Tok::Chunk(0));
+        }
+        let n = if i + 1 == parts { rest } else { rng.below(rest + 1) };
+        toks.push(Tok::Chunk(n));
+        rest -= n;
+    }
+    toks
+}
+
+fn body_for(ex: &str, n: usize, rng: &mut Rng) -> String {
+    match ex {
+        "json" | "jb" if n >= 2 => format!("j:{}", n),
+        "form" | "ue" if n >= 2 => format!("f:{}", n),
+        "json" | "form" | "jb" | "ue" => format!("x:{}", hexs(&vec![b'z'; n])),
+        "string" => {
+            if n > 0 && rng.chance(1, 12) {
+                // invalid UTF-8
+                let mut v = letters(n);
+                v[n / 2] = 0xff;
+                if n <= 64 { format!("x:{}", hexs(&v)) } else { format!("r:255:{}", n) }
+            } else if n <= 32 {
+                format!("x:{}", hexs(&letters(n)))
+            } else {
+                format!("r:{}:{}", 97 + rng.below(26), n)
+            }
+        }
+        _ => {
+            if n <= 24 {
+                format!("x:{}", hexs(&rng.bytes(n)))
+            } else if rng.chance(1, 2) {
+                format!("q:{}:{}", rng.below(1 << 30), n)
+            } else {
+                format!("r:{}:{}", rng.below(256), n)
+            }
+        }
+    }
+}
+
+const WEB: &[&str] = &["bytes", "string", "json", "form", "jb", "ue"];
+const ENCS: &[&str] = &["id", "gz", "df", "br", "zs"];
+
+fn gen(ctx: &Ctx) -> Vec<String> {
+    let mut rng = Rng::new(ctx.seed);
+    let mut cases = Vec::new();
+    let thorough = ctx.tier != Tier::Quick;
+
+    // (A) exhaustive: every chunking of every body of ≤ 5 (6) bytes, limits 0..4, no declared length
+    let maxlen = if thorough { 6 } else { 5 };
+    for ex in ["bytes", "string", "json", "form", "jb", "ue", "tbl", "tbs"] {
+        for lim in 0..=4usize {
+            for n in 0..=maxlen.min(lim + 2) {
+                let body = body_for(ex, n, &mut Rng::new(7));
+                for parts in compositions(n) {
+                    let toks: Vec<Tok> = parts.iter().map(|p| Tok::Chunk(*p)).collect();
+                    cases.push(stream_case(ex, &lim.to_string(), "none", "id", &body, &toks));
+                }
+                // declared length variants on the whole-body and the 1-byte chunkings
+                let whole = vec![Tok::Chunk(n)];
+                let ones: Vec<Tok> = (0..n).map(|_| Tok::Chunk(1)).collect();
+                for cl in [n.to_string(), "0".into(), lim.to_string(), (lim + 1).to_string(), "bad".into()] {
+                    cases.push(stream_case(ex, &lim.to_string(), &cl, "id", &body, &whole));
+                    cases.push(stream_case(ex, &lim.to_string(), &cl, "id", &body, &ones));
+                }
+                // empty chunks, Pending and an error at every position of the 1-byte chunking
+                for pos in 0..=n {
+                    for extra in [Tok::Chunk(0), Tok::Pending, Tok::Err] {
+                        let mut t = ones.clone();
+                        t.insert(pos, extra);
+                        cases.push(stream_case(ex, &lim.to_string(), "none", "id", &body, &t));
+                    }
+                }
+            }
+        }
+    }
+
+    // (B) around the limit, all codings
+    let lims: &[usize] = if thorough { &[1, 7, 64, 1000, 2048, 2049, 8192, 65536, 300000] } else { &[1, 7, 64, 1000, 2049, 8192, 65536] };
+    for &lim in lims {
+        for n in [lim - 1, lim, lim + 1, 4 * lim] {
+            for ex in WEB {
+                for enc in ENCS {
+                    let body = body_for(ex, n, &mut rng);
+                    let plain = body_of_spec(&body);
+                    let w = compress(enc, &plain).len();
+                    let mut variants: Vec<(String, Vec<Tok>)> = vec![
+                        ("none".into(), vec![Tok::Chunk(w)]),
+                        ("none".into(), random_cuts(&mut rng, w, 6, true)),
+                        (w.to_string(), random_cuts(&mut rng, w, 4, false)),
+                    ];
+                    if w <= 300 {
+                        variants.push(("none".into(), (0..w).map(|_| Tok::Chunk(1)).collect()));
+                    }
+                    let lie = *rng.pick(&[0usize, 1, lim, lim + 1, w + 1, w.saturating_sub(1), 4 * lim]);
+                    variants.push((lie.to_string(), random_cuts(&mut rng, w, 3, false)));
+                    if rng.chance(1, 3) {
+                        variants.push(("bad".into(), vec![Tok::Chunk(w)]));
+                    }
+                    for (cl, toks) in variants {
+                        cases.push(stream_case(ex, &lim.to_string(), &cl, enc, &body, &toks));
+                    }
+                }
+            }
+            for ex in ["tbl", "tbs"] {
+                let body = body_for(ex, n, &mut rng);
+                for cl in ["none".to_owned(), n.to_string(), "0".into(), (lim + 1).to_string(), "bad".into(), "1".into()] {
+                    if ex == "tbl" && cl != "none" {
+                        continue;
+                    }
+                    cases.push(stream_case(ex, &lim.to_string(), &cl, "id", &body, &random_cuts(&mut rng, n, 5, true)));
+                }
+            }
+        }
+    }
+
+    // (C) the default limits (no config in app data), ±1
+    for (ex, d) in [("bytes", 262_144usize), ("string", 262_144), ("json", 2_097_152), ("form", 16_384), ("jb", 2_097_152), ("ue", 32_768)] {
+        for n in [d - 1, d, d + 1] {
+            let body = match ex {
+                "json" | "jb" => format!("j:{}", n),
+                "form" | "ue" => format!("f:{}", n),
+                "string" => format!("r:98:{}", n),
+                _ => format!("q:5:{}", n),
+            };
+            cases.push(stream_case(ex, "dflt", "none", "id", &body, &random_cuts(&mut rng, n, 9, false)));
+            cases.push(stream_case(ex, "dflt", &n.to_string(), "id", &body, &[Tok::Chunk(n)]));
+            let w = compress("gz", &body_of_spec(&body)).len();
+            cases.push(stream_case(ex, "dflt", "none", "gz", &body, &random_cuts(&mut rng, w, 4, false)));
+        }
+    }
+    // HttpMessageBody::new's built-in check against the default is overridden by .limit()
+    cases.push(stream_case("bytes", "300000", "299999", "id", "r:1:299999", &[Tok::Chunk(299999)]));
+    cases.push(stream_case("bytes", "300000", "300001", "id", "r:1:10", &[Tok::Chunk(10)]));
+
+    // (D) decompression bombs: tiny wire image, huge decoded image, small limit (O6)
+    for enc in ["gz", "df", "br", "zs"] {
+        for (n, lim) in [(1usize << 20, 100usize), (200_000, 1000), (70_000, 65_536)] {
+            let body = format!("r:0:{}", n);
+            let w = compress(enc, &body_of_spec(&body)).len();
+            for ex in WEB {
+                if *ex != "bytes" && *ex != "string" {
+                    continue;
+                }
+                cases.push(stream_case(ex, &lim.to_string(), "none", enc, &body, &[Tok::Chunk(w)]));
+                cases.push(stream_case(ex, &lim.to_string(), &w.to_string(), enc, &body, &random_cuts(&mut rng, w, 5, false)));
+            }
+        }
+    }
+
+    // (E) random
+    for _ in 0..ctx.budget(2500) {
+        let ex = *rng.pick(&["bytes", "string", "json", "form", "jb", "ue", "tbl", "tbs"]);
+        let lim = *rng.pick(&[0usize, 1, 2, 3, 5, 8, 13, 40, 100, 257, 1024, 4096]);
+        let n = match rng.below(6) {
+            0 => lim.saturating_sub(1),
+            1 => lim,
+            2 => lim + 1,
+            3 => 4 * lim,
+            _ => rng.below(2 * lim + 3),
+        };
+        let web = WEB.contains(&ex);
+        let enc = if web && rng.chance(1, 2) { *rng.pick(ENCS) } else { "id" };
+        let body = body_for(ex, n, &mut rng);
+        let w = if web { compress(enc, &body_of_spec(&body)).len() } else { n };
+        let mut toks = random_cuts(&mut rng, w, 8, true);
+        if enc == "id" && rng.chance(1, 8) {
+            let pos = rng.below(toks.len() + 1);
+            toks.insert(pos, Tok::Err);
+        }
+        let cl = match rng.below(7) {
+            0 => w.to_string(),
+            1 => rng.below(2 * lim + 2).to_string(),
+            2 => "bad".into(),
+            3 => (lim + 1).to_string(),
+            _ => "none".into(),
+        };
+        cases.push(stream_case(ex, &lim.to_string(), &cl, enc, &body, &toks));
+    }
+
+    // (G) Field::bytes(limit)
+    for i in 0..ctx.budget(600) {
+        let lim = *rng.pick(&[0usize, 1, 2, 5, 16, 100, 1000, 5000, 70000]);
+        let n = match rng.below(6) {
+            0 => lim.saturating_sub(1),
+            1 => lim,
+            2 => lim + 1,
+            3 => 4 * lim,
+            _ => rng.below(2 * lim + 3),
+        };
+        let body = if n <= 24 { format!("x:{}", hexs(&letters(n))) } else { format!("r:{}:{}", 97 + rng.below(26), n) };
+        let w = fb_wire(&body_of_spec(&body)).len();
+        let mut toks = if i % 4 == 0 { vec![Tok::Chunk(w)] } else { random_cuts(&mut rng, w, 9, true) };
+        if rng.chance(1, 8) {
+            // an error before the end of the first field: cut the script inside the field
+            let keep = rng.below(60 + n);
+            let mut acc = 0usize;
+            let mut t2 = Vec::new();
+            for t in &toks {
+                if let Tok::Chunk(k) = t {
+                    if acc + k > keep {
+                        t2.push(Tok::Chunk(keep - acc));
+                        break;
+                    }
+                    acc += k;
+                }
+                t2.push(t.clone());
+            }
+            t2.push(Tok::Err);
+            toks = t2;
+        }
+        cases.push(format!("ex=fb lim={} body={} cuts={}", lim, body, cuts_str(&toks)));
+    }
+
+    // (F) multipart forms
+    let names = ["a", "a", "b", "t", "s", "u", "b"];
+    for i in 0..ctx.budget(1500) {
+        let form = *rng.pick(&["A", "A", "B", "C"]);
+        let k = rng.range(0, 6);
+        let fields: Vec<(String, usize)> = (0..k)
+            .map(|_| {
+                let name = *rng.pick(&names);
+                let name = if form != "A" && (name == "t" || name == "s") { "u" } else { name };
+                let len = *rng.pick(&[0usize, 1, 3, 7, 8, 9, 12, 16, 17, 24, 25, 30]);
+                (name.to_owned(), if rng.chance(1, 2) { len } else { rng.below(12) })
+            })
+            .collect();
+        let sum: usize = fields.iter().map(|f| f.1).sum();
+        let total = match rng.below(5) {
+            0 => sum.saturating_sub(1),
+            1 => sum,
+            2 => sum + 1,
+            _ => sum + 100,
+        };
+        let mem = match rng.below(5) {
+            0 => rng.below(sum + 1),
+            1 => sum,
+            _ => sum + 100,
+        };
+        let w = mp_body(&fields).len();
+        let toks = if i % 3 == 0 { vec![Tok::Chunk(w)] } else { random_cuts(&mut rng, w, 7, true) };
+        let fs: Vec<String> = fields.iter().map(|(n, l)| format!("{}:{}", n, l)).collect();
+        let (ts, ms) = if i % 50 == 49 { ("dflt".to_owned(), "dflt".to_owned()) } else { (total.to_string(), mem.to_string()) };
+        cases.push(format!("ex=mp form={} total={} mem={} fields={} cuts={}", form, ts, ms, fs.join(";"), cuts_str(&toks)));
+    }
+    cases
+}
 
 pub fn prop() -> Prop {
-    Prop {
-        rule: "unimplemented",
-        parallel: false,
-        gen: Box::new(|_| Vec::new()),
-        run: Box::new(|_| CaseResult::ok("unimplemented".to_owned())),
-    }
+    Prop { rule: RULE, parallel: true, gen: Box::new(gen), run: Box::new(run) }
 }
